@@ -1245,6 +1245,9 @@ impl Server {
     
     /// Handle EXEC command - execute queued transaction commands
     fn handle_exec(&mut self, conn_id: u64) -> Result<RespFrame> {
+        // A transaction is one step: the storage clock stands still from the check of the watched keys to the
+        // last queued command (no key expires in the middle of it)
+        let _clock = crate::storage::clock::freeze();
         // Extract watched keys and transaction state from connection
         let (watched_keys, db_index, commands, in_transaction) = {
             let extracted = self.connections.with_connection(conn_id, |conn| {
